@@ -698,6 +698,7 @@ var c04directed = []struct{ src, want string }{
 	// every numeric literal is a float, also the neutral ones: x*1 and x/1 make the operation floating-point
 	{`{{ i7 * 1 / i2 }}|{{ i7 * 1.0 / i2 }}|{{ i7 / 1 / i2 }}|{{ 1 * i7 / i2 }}|{{ i7 * 1 / i2 * i2 }}|{{ (i7 + 0) / i2 }}|{{ (i7 - 0.0) / i2 }}|{{ i7 / i2 * 1 }}|{{ im7 / 1.0 / i2 }}`, "3.5|3.5|3.5|3.5|7|3.5|3.5|3|-3.5"},
 	{`{{ big == big1 }}|{{ big < big1 }}|{{ big1 > big }}|{{ big != big1 }}|{{ big1 - big }}|{{ (big1 - big) * i7 % i2 }}`, "false|true|true|true|1|1"},
+	{`{{ big / one }}|{{ big / one % i2 }}|{{ big1 / one - big / one }}|{{ -big / one }}|{{ nanos / one % sec }}`, "9007199254740993|1|1|-9007199254740993|123456789"},
 	// logical operators always yield true or false, however often they are stacked and whatever they are applied to
 	{`{{ !!i7 }}|{{ not not i7 }}|{{ !(!i7) }}|{{ "v=" + !!i7 }}|{{ (!!i7) == true }}|{{ !!"" }}|{{ !!"s" }}|{{ !!!i7 }}|{{ !!(i7 - 7) }}|{{ !!1.5 }}`, "true|true|true|v=true|true|false|true|false|false|true"},
 	// integral literals beyond the int64 range are floating-point operands like every other literal
@@ -712,7 +713,7 @@ func c04run(c *fw.Ctx, idx int) {
 		defer c.End()
 		vars := jet.VarMap{}
 		vars.Set("i1", 5).Set("i7", 7).Set("i2", 2).Set("im7", -7).Set("im2", -2).Set("bt", true).Set("bf", false).Set("si", []int{9, 4})
-		vars.Set("big", int64(9007199254740993)).Set("big1", int64(9007199254740994)).Set("nanos", int64(1700000000123456789)).Set("sec", int64(1000000000))
+		vars.Set("one", 1).Set("big", int64(9007199254740993)).Set("big1", int64(9007199254740994)).Set("nanos", int64(1700000000123456789)).Set("sec", int64(1000000000))
 		vars.Set("fi", func(id string, v int) int { return v })
 		res := jx.Run(map[string]string{"/t.jet": d.src}, "/t.jet", vars, nil, jx.NoEscape)
 		want := d.want
@@ -823,7 +824,7 @@ func init() {
 		Technique: "typed reference evaluator and probe call log over generated expression trees, each rendered in four surface forms (minimal parentheses, no spaces, and/or/not, redundant parentheses)",
 		Rule: "type-directed random expression trees (depth <=5) over float literals, Go ints of several widths (incl. int8, int64, uint16), float32/64, strings, bools, calls, index expressions, unary minus, !, * / %, + -, relational, equality, && ||, ?:; printed with only the parentheses the documented ladder requires; " +
 			"oracle: rendered value equals the model's (ints and floats compared numerically and two Go ints must render integrally; strings/bools byte-exact), identical across the four surface forms, and the log of side-effecting probe operands equals the model's need-only evaluation order; " +
-			"11 directed cases pin the documented examples ((a)-1, f(x)-1, s[0]-1, a*-1, truncating / and %, negative non-integral float comparisons, right-nested ?:, integers beyond 2^53 in % / + - * and comparisons); cases the statement does not type (% with non-integral operands, int==non-integral float, division by zero, mixed-kind equality) are discarded and counted; " +
+			"12 directed cases pin the documented examples ((a)-1, f(x)-1, s[0]-1, a*-1, truncating / and %, negative non-integral float comparisons, right-nested ?:, integers beyond 2^53 in % / + - * and comparisons); cases the statement does not type (% with non-integral operands, int==non-integral float, division by zero, mixed-kind equality) are discarded and counted; " +
 			"non-trivial = at least two operators; distinct by operator/operand-kind shape",
 		Assumptions: []string{"float results are produced by the same float64 operations in the same order, so they are compared with =="},
 		NCases:      c04n,
